@@ -3,7 +3,7 @@ without close spelling matches. Reports the first text whose analysis raises, or
 is not reported as an error on the offending line."""
 
 
-def _analyze(text):
+def _analyze(text, empty_collections=False):
     from openpectus.lang.exec.analyzer import SemanticCheckAnalyzer
     from openpectus.lang.exec.tags import TagValueCollection, TagValue
     from openpectus.lang.exec.commands import CommandCollection, Command
@@ -11,6 +11,8 @@ def _analyze(text):
     tags = TagValueCollection([TagValue("Foo", 0, 1, None, None, None), TagValue("Bar", 0, 1, None, "L", None)])
     cmds = CommandCollection().with_cmd(Command("Mark")).with_cmd(Command("Watch")).with_cmd(Command("Alarm")) \
         .with_cmd(Command("Simulate")).with_cmd(Command("Simulate off"))
+    if empty_collections:
+        tags, cmds = TagValueCollection([]), CommandCollection()
     m = ParserMethod.from_pcode(text)
     prog = create_method_parser(m).parse_method(m)
     a = SemanticCheckAnalyzer(tags, cmds)
@@ -29,14 +31,15 @@ def check_all():
     import logging
     logging.disable(logging.CRITICAL)
     try:
-        for text, line in CASES:
-            try:
-                errs = _analyze(text)
-            except Exception as e:
-                return {"violated": True, "method_text": text, "what": f"analysis raised {type(e).__name__}: {e}"}
-            if not any(ln == line for _id, ln in errs):
-                return {"violated": True, "method_text": text, "what": f"no error reported on line {line}", "errors": errs}
-        return {"violated": False, "cases": len(CASES)}
+        for empty in (False, True):
+            for text, line in CASES:
+                try:
+                    errs = _analyze(text, empty)
+                except Exception as e:
+                    return {"violated": True, "method_text": text, "empty_tag_and_command_sets": empty, "what": f"analysis raised {type(e).__name__}: {e}"}
+                if not any(ln == line for _id, ln in errs):
+                    return {"violated": True, "method_text": text, "empty_tag_and_command_sets": empty, "what": f"no error reported on line {line}", "errors": errs}
+        return {"violated": False, "cases": 2 * len(CASES)}
     finally:
         logging.disable(logging.NOTSET)
 
